@@ -14,7 +14,7 @@ theorem rank_le (ws : List Nat) : ∀ i, rank ws i ≤ i
     have := rank_le ws i
     rw [rank]; cases bitAt ws i <;> simp <;> omega
 
-/-- every entry of the index built by `IndexRank64` is at most `64 * (len + 1)` -/
+/-- every entry of the index built by `IndexRank64` is at most `64 * len` -/
 theorem indexRank64_mem_le {ws : List Nat} {t : Bool} {n : Nat} (h : n ∈ indexRank64 ws t) :
     n ≤ 64 * ws.length := by
   rw [C01_indexRank64, List.mem_map] at h
